@@ -27,7 +27,7 @@ import (
 )
 
 func init() {
-	pbt.Describe("schedules: the real sumdb.Server over sumdb.NewTestServer is called in-process (ServeHTTP with a recorder; path escaping and record formatting are part of what is checked) and grows as lookups create records, so different goroutines see heads of different sizes; 1-3 clients share one configuration/cache store; 2-5 goroutines per client perform 1-3 lookups each over <= 6 modules including upper-case paths, /go.mod versions, repeated keys and paths matching a generated GONOSUMDB list; tile height in {1,2,3}. Every ClientOps call and every hook yield point (merge:read, merge:install, merge:flush, record:read) parks on a harness-owned scheduler which, whenever no operation runs and no new request has arrived for a grace period, releases one pending request chosen by generated data from the pending set ordered by identity (client, operation, argument, occurrence); operations are thus totally ordered by the generated schedule, and the decision list is the replayable history. Oracle: every lookup succeeds with exactly the server's lines for that module/version; per client at most one ReadCache and one ReadRemote per lookup file; stored head sizes never decrease and the final stored head is the largest head any response carried; a private path returns ErrGONOSUMDB without any external operation. race: the same workload without the scheduler, many goroutines, built with -race (a race report fails the run). Non-trivial: at least two requests were pending at some decision and the history contains either two different head sizes in flight or a lookup key shared by two goroutines of one client. Distinct by the recorded history.",
+	pbt.Describe("schedules: the real sumdb.Server over sumdb.NewTestServer is called in-process (ServeHTTP with a recorder; path escaping and record formatting are part of what is checked) and grows as lookups create records, so different goroutines see heads of different sizes; 1-3 clients share one configuration/cache store; 2-5 goroutines per client perform 1-3 lookups each over <= 6 modules including upper-case paths, /go.mod versions, repeated keys and paths matching a generated GONOSUMDB list; tile height in {1,2,3}. Every ClientOps call and every hook yield point (merge:read, merge:install, merge:flush, record:read) parks on a harness-owned scheduler which, whenever no operation runs and no new request has arrived for a grace period, releases one pending request chosen by generated data from the pending set ordered by identity (client, operation, argument, occurrence); operations are thus totally ordered by the generated schedule, and the decision list is the replayable history. Oracle: every lookup succeeds with exactly the server's lines for that module/version; per client at most one ReadCache and one ReadRemote per lookup file; stored head sizes never decrease and the final stored head is the largest head any response carried; a private path returns ErrGONOSUMDB without any external operation. race: the same workload without the scheduler, many goroutines, built with -race (a race report fails the run). Non-trivial: at least two requests were pending at some decision and the history contains either two different head sizes in flight or a lookup key shared by two goroutines of one client. Distinct by the recorded history. 4% of the cases start from a log just below 1000*2^H records, so that the run's own records fill tile number 1000 (the first path with an x001 element).",
 		"only interleavings at external operations and the four yield points are controlled, and they are sampled, not enumerated", "late goroutines can make the explorer choose from an incomplete pending set: any schedule produced is legal, so this costs coverage and bit-reproducibility of exploration, never soundness; replay releases requests strictly in the recorded identity order",
 		"liveness beyond 'the run ended' is not checked; a run that makes no progress for 20 s is reported as a hang")
 }
@@ -262,6 +262,11 @@ func genPrewarm(t *rapid.T) int {
 
 func genCase(t *rapid.T) *c14Case {
 	c := &c14Case{H: []int{1, 2, 2, 3}[gen.Uniform(t, 4, "h")], Prewarm: genPrewarm(t), Patterns: patternLists[gen.Uniform(t, len(patternLists), "patterns")]}
+	if gen.Chance(t, 4, "largelog") {
+		// the log grows through the sizes at which tile number 1000 of level 0 appears and fills up (its path is the
+		// first with an "x001" element); new records of this run land in it
+		c.Prewarm = 1000<<uint(c.H) - rapid.IntRange(0, 6).Draw(t, "largeshort")
+	}
 	nc := []int{1, 1, 2, 2, 3}[gen.Uniform(t, 5, "nclients")]
 	for ci := 0; ci < nc; ci++ {
 		ng := rapid.IntRange(2, 5).Draw(t, "ngor")
@@ -289,7 +294,7 @@ func genCase(t *rapid.T) *c14Case {
 }
 
 func okCase(c *c14Case) bool {
-	if c.H < 1 || c.H > 8 || c.Prewarm < 0 || c.Prewarm > 2000 || len(c.Work) == 0 || len(c.Work) > 4 || len(c.Choices) > 2000 || len(c.History) > 5000 {
+	if c.H < 1 || c.H > 8 || c.Prewarm < 0 || c.Prewarm > 9000 || len(c.Work) == 0 || len(c.Work) > 4 || len(c.Choices) > 2000 || len(c.History) > 5000 {
 		return false
 	}
 	for _, gs := range c.Work {
